@@ -149,7 +149,7 @@ func enumerate(tier string) []caseSpec {
 	// --- quick: length <= 3 x default options ---
 	// one service per file
 	for _, tv := range mainTypes {
-		for _, pkg := range []string{"p", "a.b.c"} {
+		for _, pkg := range []string{"p", "a.b.c", ""} {
 			for _, nm := range namings {
 				for _, s := range s3 {
 					add(gen([][]string{s}, nm, pkg, tv, legacy))
@@ -176,6 +176,33 @@ func enumerate(tier string) []caseSpec {
 		for _, b := range s1 {
 			add(gen([][]string{a, b}, "snake", "a.b.c", mainTypes[1], legacy))
 			add(gen([][]string{a, b}, "snake", "a.b.c", mainTypes[0], none))
+		}
+	}
+	for _, a := range s1 {
+		for _, b := range s1 {
+			add(gen([][]string{a, b}, "camel", "", mainTypes[1], legacy))
+		}
+	}
+	// two files generated by one request (the imported file declares a service too), both
+	// orders of file_to_generate, under the options that decide Go packages and output names
+	multiOpts := map[string]bool{"legacy": true, "legacy+import_path": true, "legacy+module": true, "legacy+paths=source_relative": true,
+		"legacy+Mmain": true, "legacy+Mdep": true, "legacy+Mboth": true, "legacy+Mboth-same": true, "legacy+import_path+Mmain": true}
+	for _, dep := range []string{"other", "same"} {
+		for _, tv := range []typeVariant{{"I", "I", dep}, {"L", "I", dep}, {"L", "L", dep}} {
+			for _, o := range validOptSets("p", dep) {
+				if !multiOpts[o.Key] {
+					continue
+				}
+				for _, order := range []string{"", "dependent-first"} {
+					for _, a := range s1 {
+						for _, b := range [][]string{{}, {kU}, {kBD}} {
+							c := gen([][]string{a}, "camel", "p", tv, o)
+							c.DepSvc, c.Order = b, order
+							add(c)
+						}
+					}
+				}
+			}
 		}
 	}
 	if tier != "thorough" {
@@ -249,11 +276,13 @@ func enumerate(tier string) []caseSpec {
 		for _, tv := range []typeVariant{{"I", "I", dep}, {"L", "I", dep}, {"L", "L", dep}} {
 			for _, o := range validOptSets("p", dep) {
 				for _, nm := range namings {
-					for _, a := range s1 {
-						for _, b := range s1 {
-							c := gen([][]string{a}, nm, "p", tv, o)
-							c.DepSvc = b
-							add(c)
+					for _, order := range []string{"", "dependent-first"} {
+						for _, a := range s1 {
+							for _, b := range s1 {
+								c := gen([][]string{a}, nm, "p", tv, o)
+								c.DepSvc, c.Order = b, order
+								add(c)
+							}
 						}
 					}
 				}
@@ -277,6 +306,7 @@ type outcome struct {
 	c        caseSpec
 	rm       *requestModel
 	res      *pluginResult
+	twin     *pluginResult // same request with file_to_generate in dependency order (only for Order != "")
 	buildErr error
 }
 
@@ -285,20 +315,30 @@ func execCase(c caseSpec) outcome {
 	if err != nil {
 		return outcome{c: c, buildErr: err}
 	}
-	return outcome{c: c, rm: rm, res: runPlugin(rm.pb())}
+	o := outcome{c: c, rm: rm, res: runPlugin(rm.pb())}
+	if c.Order != "" {
+		t := *rm
+		t.Order = ""
+		o.twin = runPlugin(t.pb())
+	}
+	return o
 }
 
 func judge(o outcome) ([]finding, caseStats) {
 	if o.buildErr != nil {
 		return []finding{{"internal", "model", o.buildErr.Error()}}, caseStats{}
 	}
-	if o.res.TimedOut {
+	if o.res.TimedOut || (o.twin != nil && o.twin.TimedOut) {
 		return []finding{{"internal", "hang-guard", "the plugin did not answer within 60 s"}}, caseStats{}
 	}
 	if o.c.Kind == "invalid-opt" {
 		return checkInvalid(o.c, o.res)
 	}
-	return checkResponse(o.c, o.rm, o.res)
+	fs, st := checkResponse(o.c, o.rm, o.res)
+	if o.twin != nil {
+		fs = append(fs, checkOrder(o.c, o.res, o.twin)...)
+	}
+	return fs, st
 }
 
 // checkInvalid: an option string the plugin cannot accept must be answered with
@@ -554,7 +594,7 @@ func main() {
 		"evaluations":         evals,
 		"distinct_nontrivial": len(distinct),
 		"rule": "a case (= one CodeGeneratorRequest: services x method-kind sequences x naming x proto package x request/response type source x dep placement x option string) is non-trivial when the plugin emitted a file in which at least one RegisterHandler function or legacy client method was located and compared with the model (or, for an invalid option string, when the plugin answered at all); distinct by the full case key. " +
-			"quick: every kind sequence of length 0..3 as a single service x {camel,snake} x {p,a.b.c} x {local, imported, Empty} with legacy_stubs (+ no options for local), two-service files for every ordered pair of sequences <= 2 and every (<=3, <=1)/(<=1, <=3) pair, + regeneration. " +
+			"quick: every kind sequence of length 0..3 as a single service x {camel,snake} x {p,a.b.c,no package} x {local, imported, Empty} with legacy_stubs (+ no options for local), two-service files for every ordered pair of sequences <= 2 and every (<=3, <=1)/(<=1, <=3) pair, requests generating two files (dependency in another/the same Go package) x both orders of file_to_generate x 9 package/output-name options (import_path, module, paths, M...) with an order-invariance comparison of output names, package clauses and import sets, + regeneration. " +
 			"thorough adds: 18 valid option strings x all <=3 sequences x 3 packages; all 37 request/response type-source/dep-placement variants x all option strings; every ordered pair of <=3 sequences in a two-service file; three-service files; every unary/streaming mask of length 5 and 6; requests generating two files; 18 invalid option strings.",
 		"registrations_compared":    totals.Registrations,
 		"client_methods_compared":   totals.Methods,
